@@ -84,6 +84,7 @@ func NewBuffer[K comparable, V any]() *Buffer[K, V] {
 // item may be lost due to contention.
 func (b *Buffer[K, V]) Add(n ReadBufItem[K, V]) *PolicyBuffers[K, V] {
 	head := b.head.Load()
+	verifPoint(vpBufBetweenLoads)
 	tail := b.tail.Load()
 	size := tail - head
 	if size >= capacity {
